@@ -246,14 +246,15 @@ static size_t safec_ntoa_format(out_fct_type out, const char *funcname,
                                 char *buf, size_t len, bool negative,
                                 unsigned int base, unsigned int prec,
                                 unsigned int width, unsigned int flags) {
+    // the precision gives the minimum number of digits, also when left-justified
+    while ((len < prec) && (len < PRINTF_NTOA_BUFFER_SIZE)) {
+        buf[len++] = '0';
+    }
     // pad leading zeros
     if (!(flags & FLAGS_LEFT)) {
         if (width && (flags & FLAGS_ZEROPAD) &&
             (negative || (flags & (FLAGS_PLUS | FLAGS_SPACE)))) {
             width--;
-        }
-        while ((len < prec) && (len < PRINTF_NTOA_BUFFER_SIZE)) {
-            buf[len++] = '0';
         }
         while ((flags & FLAGS_ZEROPAD) && (len < width) &&
                (len < PRINTF_NTOA_BUFFER_SIZE)) {
